@@ -7,24 +7,24 @@ val length : 'a1 list -> nat
 
 val app : 'a1 list -> 'a1 list -> 'a1 list
 
+type comparison =
+| Eq
+| Lt
+| Gt
+
+val compOpp : comparison -> comparison
+
 val add : nat -> nat -> nat
 
-val sub : nat -> nat -> nat
+val nth : nat -> 'a1 list -> 'a1 -> 'a1
 
-module Nat :
- sig
-  val leb : nat -> nat -> bool
+val rev : 'a1 list -> 'a1 list
 
-  val ltb : nat -> nat -> bool
-
-  val max : nat -> nat -> nat
-
-  val min : nat -> nat -> nat
- end
-
-val firstn : nat -> 'a1 list -> 'a1 list
+val map : ('a1 -> 'a2) -> 'a1 list -> 'a2 list
 
 val skipn : nat -> 'a1 list -> 'a1 list
+
+val seq : nat -> nat -> nat list
 
 val repeat : 'a1 -> nat -> 'a1 list
 
@@ -50,9 +50,33 @@ module Pos :
 
   val add_carry : positive -> positive -> positive
 
+  val pred_double : positive -> positive
+
+  val pred_N : positive -> n
+
   val mul : positive -> positive -> positive
 
+  val iter : ('a1 -> 'a1) -> 'a1 -> positive -> 'a1
+
+  val div2 : positive -> positive
+
+  val div2_up : positive -> positive
+
+  val compare_cont : comparison -> positive -> positive -> comparison
+
+  val compare : positive -> positive -> comparison
+
   val eqb : positive -> positive -> bool
+
+  val coq_Nsucc_double : n -> n
+
+  val coq_Ndouble : n -> n
+
+  val coq_lor : positive -> positive -> positive
+
+  val coq_land : positive -> positive -> n
+
+  val ldiff : positive -> positive -> n
 
   val iter_op : ('a1 -> 'a1 -> 'a1) -> positive -> 'a1 -> 'a1
 
@@ -63,9 +87,15 @@ module Pos :
 
 module N :
  sig
+  val succ_pos : n -> positive
+
   val add : n -> n -> n
 
   val mul : n -> n -> n
+
+  val coq_lor : n -> n -> n
+
+  val ldiff : n -> n -> n
 
   val to_nat : n -> nat
 
@@ -74,7 +104,35 @@ module N :
 
 module Z :
  sig
+  val double : z -> z
+
+  val succ_double : z -> z
+
+  val pred_double : z -> z
+
+  val pos_sub : positive -> positive -> z
+
+  val add : z -> z -> z
+
   val opp : z -> z
+
+  val sub : z -> z -> z
+
+  val mul : z -> z -> z
+
+  val pow_pos : z -> positive -> z
+
+  val pow : z -> z -> z
+
+  val compare : z -> z -> comparison
+
+  val leb : z -> z -> bool
+
+  val ltb : z -> z -> bool
+
+  val geb : z -> z -> bool
+
+  val gtb : z -> z -> bool
 
   val eqb : z -> z -> bool
 
@@ -85,132 +143,107 @@ module Z :
   val of_nat : nat -> z
 
   val of_N : n -> z
+
+  val pos_div_eucl : positive -> z -> z * z
+
+  val div_eucl : z -> z -> z * z
+
+  val div : z -> z -> z
+
+  val modulo : z -> z -> z
+
+  val div2 : z -> z
+
+  val shiftl : z -> z -> z
+
+  val shiftr : z -> z -> z
+
+  val coq_land : z -> z -> z
  end
 
-val rc_magic_size : nat
+val wrap32 : z -> z
 
-val wr_min_progress : nat
+val tABLE : z list
 
-val bs_buffer_size : n
+val iNV_TABLE : z list
 
-val tbs_block_size : n
+val enc_val0 : z
 
-val rc_magic_gz : z list
+val enc_valb0 : z
 
-val rc_magic_bz : z list
+val enc_shift : z
 
-val rc_magic_xz : z list
+val enc_valb_add : z
 
-type outcome =
-| Full
-| Short of nat
-| Eintr
-| Err of z
+val enc_loop_bound : z
 
-type os = { os_src : z list; os_script : outcome list;
-            os_trace : (nat * z) list; os_sink : z list }
+val enc_mask : z
 
-val os_trace : os -> (nat * z) list
+val enc_valb_sub : z
 
-val os_sink : os -> z list
+val enc_tail_bound : z
 
-val os_init : z list -> outcome list -> os
+val enc_tail_shl : z
 
-type sysres =
-| SData of z list
-| SEintr
-| SErr of z
+val enc_tail_add : z
 
-val granted : outcome -> nat -> nat
+val enc_tail_mask : z
 
-val next_outcome : os -> outcome * outcome list
+val enc_pad_mod : z
 
-val sys_read : nat -> os -> sysres * os
+val pad_char : z
 
-val sys_write : z list -> os -> sysres * os
+val dec_val0 : z
 
-type ioerr =
-| EFuel
-| EErrno of z
-| EEndOfFile
-| EWriteZero
-| ECompressed
+val dec_valb0 : z
 
-type 'a res =
-| Ok of 'a
-| Fail of ioerr
+val dec_pad_char : z
 
-val eintr_fuel : os -> nat
+val dec_reject : z
 
-val partial_read_loop : nat -> nat -> os -> z list res * os
+val dec_shift : z
 
-val partial_read : nat -> os -> z list res * os
+val dec_valb_add : z
 
-val read_or_eof_loop : nat -> nat -> z list -> os -> z list res * os
+val dec_out_bound : z
 
-val read_or_eof : nat -> os -> z list res * os
+val dec_mask : z
 
-val read_or_throw_loop : nat -> nat -> z list -> os -> z list res * os
+val dec_valb_sub : z
 
-val read_or_throw : nat -> os -> z list res * os
+val tbl : z -> z
 
-val write_retry : nat -> z list -> os -> z list res * os
+val inv : z -> z
 
-val write_or_throw_loop : nat -> z list -> os -> unit res * os
+val sel : z -> z -> z -> z
 
-val write_or_throw : z list -> os -> unit res * os
+val enc_drain : nat -> z -> z -> (z list * z) option
 
-val sys_pread : nat -> nat -> z list -> os -> sysres * os
+val drain_fuel : nat
 
-val ersatz_pread_loop :
-  nat -> nat -> nat -> z list -> z list -> os -> z list res * os
+val enc_bytes : z list -> z -> z -> ((z list * z) * z) option
 
-val ersatz_pread : nat -> nat -> z list -> os -> z list res * os
+val enc_pad : nat -> z list
 
-val overwrite : z list -> nat -> z list -> z list
+val base64_encode : z list -> z list option
 
-val sys_pwrite : z list -> nat -> z list -> os -> (sysres * os) * z list
+type dres =
+| DOk of z list
+| DBadChar of z
+| DLengthError
 
-val ersatz_pwrite_loop :
-  nat -> z list -> nat -> z list -> os -> z list res * os
+val count_padding_rev : z list -> nat
 
-val ersatz_pwrite : z list -> nat -> z list -> os -> z list res * os
+val count_padding : z list -> nat
 
-type bstream = { bs_buf : z list; bs_cap : nat }
+val dec_loop : z list -> z -> z -> dres
 
-val bs_spill : bstream -> os -> bstream res * os
+val base64_decode : z list -> dres
 
-val bs_write : z list -> bstream -> os -> bstream res * os
+val b64_alphabet : z list
 
-val bs_flush : bstream -> os -> bstream res * os
+val alpha : z -> z
 
-val bs_run : z list list -> bstream -> os -> bstream res * os
+val rfc4648 : z list -> z list
 
-val tbs_write : nat -> z list -> z list -> nat -> (z list list * z list) res
-
-val tbs_blocks : z list list -> z list -> nat -> z list list res
-
-val write_blocks : z list list -> os -> unit res * os
-
-val tbs_run : z list list -> nat -> os -> unit res * os
-
-type rcstate =
-| RcHeader of z list
-| RcFd
-| RcComplete
-| RcIStream
-
-val is_prefix : z list -> z list -> bool
-
-val detect_magic : z list -> bool
-
-val read_factory : os -> rcstate res * os
-
-val rc_read : nat -> rcstate -> os -> (z list res * rcstate) * os
-
-val rc_read_or_eof_loop :
-  nat -> nat -> z list -> rcstate -> os -> (z list res * rcstate) * os
-
-val rc_read_or_eof : nat -> rcstate -> os -> (z list res * rcstate) * os
-
-val rc_open_read_or_eof : nat -> os -> z list res * os
+val strip_padding : z list -> z list
